@@ -393,6 +393,15 @@ pub fn run(opts: &Opts) {
     let mut stats: BTreeMap<String, u64> = BTreeMap::new();
     if let Some(path) = &opts.replay {
         for case in read_cases(path) {
+            if case["op"] == "sealops" {
+                // re-created from a fresh history: the operations need live keys
+                let mut rng = case_rng(opts.seed, 2, 0);
+                let h = gen_history(&mut rng, 2, false);
+                let t = h.stages.last().unwrap().clone();
+                let (c2, out) = seal_ops_case(&mut rng, &h, &t);
+                sink.put(&c2, &out);
+                continue;
+            }
             let root = PublicKey::from_proto(&pk_from_json(&case["root"])).ok();
             let bytes = encode(&wire_from_json(&case["subject"]));
             let out = match root {
@@ -447,10 +456,151 @@ pub fn run(opts: &Opts) {
             }
         }
     }
+    // every operation on a sealed token, through both APIs, before and after a round trip
+    for i in 0..nh {
+        let mut rng = case_rng(opts.seed, 2, i as u64);
+        let h = gen_history(&mut rng, 2, false);
+        let t = h.stages.last().unwrap().clone();
+        let (case, out) = seal_ops_case(&mut rng, &h, &t);
+        for (k, v) in out["ops"].as_object().unwrap() {
+            *stats.entry(format!("sealops/{}:{}", k.split('.').nth(1).unwrap_or(""), v.as_str().unwrap_or(""))).or_insert(0) += 1;
+        }
+        sink.put(&case, &out);
+    }
+    // third-party responses: right place, wrong key, other token, other position, altered (C07)
+    for i in 0..nh {
+        let mut rng = case_rng(opts.seed, 3, i as u64);
+        let h = gen_history(&mut rng, 2, false);
+        let h2 = gen_history(&mut rng, 1, false);
+        for (case, out) in third_party_cases(&mut rng, &h, &h2) {
+            *stats.entry(format!("{}/{}/accept:{}", case["op"].as_str().unwrap(), case["variant"].as_str().unwrap(), out["accept"])).or_insert(0) += 1;
+            sink.put(&case, &out);
+        }
+    }
     let total = sink.count;
     sink.finish();
     let st = json!({"stream": "chain", "cases": total, "histogram": stats});
     std::fs::write(format!("{}/chain.stats.json", opts.out), st.to_string()).unwrap();
+}
+
+/// a response made for the last stage of `h`, offered in the right and in wrong places
+pub fn third_party_cases(rng: &mut StdRng, h: &History, h2: &History) -> Vec<(Value, Value)> {
+    let mut res = vec![];
+    let a = h.stages.last().unwrap().clone();
+    let b = h2.stages.last().unwrap().clone();
+    let a_next = a.append(block_builder(rng, false)).unwrap();
+    let ext = KeyPair::new_with_rng(alg_of(rng.gen_range(0..2)), rng);
+    let other = KeyPair::new_with_rng(Algorithm::Ed25519, rng);
+    let tp = a.third_party_request().unwrap().create_block(&ext.private(), { let v33 = rng.gen_range(0..4) == 0; block_builder(rng, v33) }).unwrap();
+    let tp_bytes = tp.serialize().unwrap();
+    let contents = schema::ThirdPartyBlockContents::decode(&tp_bytes[..]).unwrap();
+    let wa = decode(&a.to_vec().unwrap()).unwrap();
+    let genuine_prev = hex::encode(&wa.blocks.last().unwrap_or(&wa.authority).signature);
+    let resp_j = |c: &schema::ThirdPartyBlockContents| json!({"data": hex::encode(&c.payload), "key": pk_json(&c.external_signature.public_key), "sig": hex::encode(&c.external_signature.signature)});
+    // through the verified API
+    for (variant, target, expected) in [
+        ("same token, same position", &a, ext.public()),
+        ("wrong expected key", &a, other.public()),
+        ("other token", &b, ext.public()),
+        ("same token, one block later", &a_next, ext.public()),
+    ] {
+        let r = target.append_third_party(expected, tp.clone());
+        let mut out = json!({"accept": r.is_ok()});
+        if let Ok(t) = &r {
+            out["result_verifies"] = json!(Biscuit::from(t.to_vec().unwrap(), h.root.public()).is_ok() || Biscuit::from(t.to_vec().unwrap(), h2.root.public()).is_ok());
+            out["ext_keys"] = json!(t.external_public_keys().iter().map(|k| k.as_ref().map(pubkey_json)).collect::<Vec<_>>());
+        }
+        let case = json!({"op": "tpv", "variant": variant, "target": wire_json(&decode(&target.to_vec().unwrap()).unwrap()),
+            "expected": pubkey_json(&expected), "resp": resp_j(&contents), "genuine_prev_sig": genuine_prev});
+        res.push((case, out));
+    }
+    // through the unverified API, then verify: the response as made, and altered
+    let mut variants: Vec<(&str, &Biscuit, schema::ThirdPartyBlockContents)> = vec![("genuine", &a, contents.clone()), ("genuine on other token", &b, contents.clone()),
+        ("genuine one block later", &a_next, contents.clone())];
+    let mut c = contents.clone();
+    c.external_signature.public_key = other.public().to_proto();
+    variants.push(("key replaced", &a, c));
+    let mut c = contents.clone();
+    flip(&mut c.external_signature.signature, rng);
+    variants.push(("signature flip", &a, c));
+    let other_tp = a.third_party_request().unwrap().create_block(&ext.private(), block_builder(rng, false)).unwrap();
+    let oc = schema::ThirdPartyBlockContents::decode(&other_tp.serialize().unwrap()[..]).unwrap();
+    let mut c = contents.clone();
+    c.payload = oc.payload.clone();
+    variants.push(("payload of another response", &a, c));
+    let mut c = contents.clone();
+    c.external_signature.signature = oc.external_signature.signature.clone();
+    variants.push(("signature of another response", &a, c));
+    for (variant, target, c) in variants {
+        let root = if std::ptr::eq(target, &b) { h2.root.public() } else { h.root.public() };
+        let mut bytes = vec![];
+        c.encode(&mut bytes).unwrap();
+        let tb = target.to_vec().unwrap();
+        let r = std::panic::catch_unwind(std::panic::AssertUnwindSafe(|| {
+            UnverifiedBiscuit::from(&tb).unwrap().append_third_party(&bytes)
+        }));
+        let (out, subject) = match r {
+            Err(e) => (json!({"panic": panic_msg(e), "accept": false}), Value::Null),
+            Ok(Err(e)) => (json!({"accept": false, "append_error": format!("{:?}", e).chars().take(100).collect::<String>()}), Value::Null),
+            Ok(Ok(u)) => {
+                let ub = u.to_vec().unwrap();
+                let w = decode(&ub).unwrap();
+                (present(&ub, &root), wire_json(&w))
+            }
+        };
+        if subject.is_null() {
+            continue;
+        }
+        let case = json!({"op": "tpu", "variant": variant, "root": pubkey_json(&root), "base": wire_json(&decode(&tb).unwrap()),
+            "subject": subject, "genuine": {"resp": resp_j(&contents), "prev_sig": genuine_prev},
+            "secrets": secrets_json(&[h, h2], &[&wire_from_json(&subject)])});
+        res.push((case, out));
+    }
+    res
+}
+
+fn verdict<T, E>(r: Result<T, E>) -> Value {
+    json!(if r.is_ok() { "accepted" } else { "refused" })
+}
+
+/// operations attempted on the sealed form of `t`
+pub fn seal_ops_case(rng: &mut StdRng, h: &History, t: &Biscuit) -> (Value, Value) {
+    let sealed = t.seal().unwrap();
+    let bytes = sealed.to_vec().unwrap();
+    let ext = KeyPair::new_with_rng(Algorithm::Ed25519, rng);
+    let tp = t.third_party_request().unwrap().create_block(&ext.private(), block_builder(rng, false)).unwrap();
+    let tp_bytes = tp.serialize().unwrap();
+    let mut ops = serde_json::Map::new();
+    let r = std::panic::catch_unwind(std::panic::AssertUnwindSafe(|| {
+        let mut ops = serde_json::Map::new();
+        let reloaded = Biscuit::from(&bytes, h.root.public()).unwrap();
+        for (name, b) in [("memory", &sealed), ("reloaded", &reloaded)] {
+            ops.insert(format!("verified-{name}.append"), verdict(b.append(block_builder(&mut case_rng(1, 1, 1), false))));
+            ops.insert(format!("verified-{name}.third_party_request"), verdict(b.third_party_request()));
+            ops.insert(format!("verified-{name}.seal"), verdict(b.seal()));
+            ops.insert(format!("verified-{name}.append_third_party"), verdict(b.append_third_party(ext.public(), tp.clone())));
+        }
+        let u_mem = UnverifiedBiscuit::from(&t.to_vec().unwrap()).unwrap().seal().unwrap();
+        let u_rel = UnverifiedBiscuit::from(&bytes).unwrap();
+        for (name, b) in [("memory", &u_mem), ("reloaded", &u_rel)] {
+            ops.insert(format!("unverified-{name}.append"), verdict(b.append(block_builder(&mut case_rng(1, 1, 1), false))));
+            ops.insert(format!("unverified-{name}.third_party_request"), verdict(b.third_party_request()));
+            ops.insert(format!("unverified-{name}.seal"), verdict(b.seal()));
+            ops.insert(format!("unverified-{name}.append_third_party"), verdict(b.append_third_party(&tp_bytes)));
+        }
+        ops
+    }));
+    let out = match r {
+        Ok(o) => {
+            ops = o;
+            json!({"ops": ops})
+        }
+        Err(e) => json!({"panic": panic_msg(e), "ops": ops}),
+    };
+    let w = decode(&bytes).unwrap();
+    let names: Vec<String> = out["ops"].as_object().unwrap().keys().cloned().collect();
+    let case = json!({"op": "sealops", "history": h.ops, "subject": wire_json(&w), "ops": names});
+    (case, out)
 }
 
 /// second phase: real signatures of honest tokens verified, with independent verifiers
